@@ -271,7 +271,7 @@ Proof.
   apply (trace_sub_generic2 cfg t0 [16%nat; 18%nat] learner_ids_unique (fun pfx m _ => InvL cfg t0 pfx m) learner_ids_unique_prefix) with (pfx := []) (m := mon0) (pre := empty_dump);
     [|split; [exact Hsel|split; assumption]|exact Hu|intros [o [what [[] _]]]|].
   - intros pfx eh m pre Hg Hq Hnp HI. cbv zeta.
-    destruct (InvL_step cfg t0 pfx eh m (observe (fst (step (fst (run (init cfg t0) pfx)) eh))) Hq HI) as [E HI'].
+    destruct (InvL_step cfg t0 pfx eh m pre (observe (fst (step (fst (run (init cfg t0) pfx)) eh))) Hq HI) as [E HI'].
     split; [|exact HI']. cbn [forallb]. rewrite andb_true_r. apply andb_true_iff. split; apply String.eqb_eq; unfold p_components; cbv zeta; cbn [nth]; [exact E|].
     rewrite <- (run_snoc_fst pfx eh (init cfg t0)). apply c07_learners_match_ok; [exact (proj1 Hg)|exact Hnp|].
     rewrite (run_snoc_fst pfx eh (init cfg t0)). exact HI'.
